@@ -38,6 +38,46 @@ def world_csum():
                   [["ifchange", ["top"]], ["edit", "src", "2"], ["kbuild", ["top"], "c", "e"]]])
 
 
+def world_dir():
+    """a rule whose product is a DIRECTORY (mkdir "$3"), and a directory of the user's, with the user's files in it, under a
+    name that rule matches: whatever redo makes of that name, the user's files stay"""
+    return World(
+        "owner-dir", {"src": ["0", "1"]},
+        {"default.pkg.do": [S(deps=["src"], out="dir")]},
+        ["g.pkg"], ["g.pkg"],
+        prefixes=[[["uwrite", "u.pkg/keep", "K\n"], ["uwrite", "u.pkg/sub/more", "M\n"]]])
+
+
+def alphabet_dir(w, h):
+    ops = [["ifchange", ["u.pkg"]], ["redo", ["u.pkg"]], ["ifchange", ["g.pkg"]], ["redo", ["g.pkg"]], ["ifchange", ["g.pkg", "u.pkg"]]]
+    cur = e1prop.cur_values(w, h)
+    ops.append(["edit", "src", "1" if cur["src"] == "0" else "0"])
+    ops += [["uwrite", "u.pkg/keep", "K\n"], ["uwrite", "u.pkg/keep", "K2 longer\n"], ["rm", "u.pkg/keep"]]
+    return ops
+
+
+def step_check_dir(proj, i, obs):
+    """only the central oracle: the model knows nothing of directories as targets"""
+    op = obs["op"]
+    if op[0] not in ("ifchange", "redo"):
+        return []
+    out = []
+    mb = obs["model_before"]
+    before, after = obs["before"], obs["after"]
+    for n, own in mb.owner.items():
+        if own in ("user", "redo-overridden") and n in before:
+            if n not in after:
+                out.append(({"kind": "user-file-deleted", "name": n, "owner": own, "cmd": op[0]}, {"before": before[n]}))
+            elif after[n] != before[n]:
+                out.append(({"kind": "user-file-modified", "name": n, "owner": own, "cmd": op[0],
+                             "what": "content" if after[n][0] != before[n][0] else "inode"},
+                            {"before": before[n], "after": after[n]}))
+            out.append(e1prop.stat("user-owned-files-checked-across-a-redo-command"))
+    if obs["rc"] == 101 or "panicked" in obs["err"]:
+        out.append(({"kind": "abort", "world": proj.w.name, "cmd": op[0]}, {"err": obs["err"][-400:]}))
+    return out
+
+
 def alphabet_csum(w, h):
     ops = [["ifchange", ["top"]], ["ifchange", ["c"]], ["redo", ["c"]]]
     cur = e1prop.cur_values(w, h)
@@ -101,7 +141,8 @@ def main(tier):
     w = world()
     return e1prop.run_property(
         PID, tier, [(w, alphabet, 3 if tier == "quick" else 4, 2 if tier == "quick" else 3),
-                    (world_csum(), alphabet_csum, 3 if tier == "quick" else 5, 2 if tier == "quick" else 3)], "rv.props.c11",
+                    (world_csum(), alphabet_csum, 3 if tier == "quick" else 5, 2 if tier == "quick" else 3),
+                    (world_dir(), alphabet_dir, 3 if tier == "quick" else 4, 3)], "rv.props.c11", check_names={"owner-dir": "step_check_dir"},
         rule="BFS over all histories <= d (quick 3, thorough 4; the checksummed world 5) of {redo-ifchange a.x|t|all, redo a.x|t, edit src, and for each of "
              "the names a.x (matched by default.x.do) and t (t.do): user-edit in place (two contents of different size), "
              "user-replace (new inode), user-restore (an OLDER file of exactly the generated size), user-rm}; an ownership ledger records the last writer of each path; oracle: every "
@@ -116,8 +157,8 @@ def main(tier):
 def replay(path):
     doc = json.load(open(path))
     bindir = common.build_subject()
-    key, viols, summ = replay_history(world_csum() if doc.get("world") == "owner-csum" else world(), doc["history"], step_check,
-                                      bindir=bindir)
+    wd = {"owner-csum": world_csum(), "owner-dir": world_dir()}.get(doc.get("world"), world())
+    key, viols, summ = replay_history(wd, doc["history"], step_check_dir if wd.name == "owner-dir" else step_check, bindir=bindir)
     common.cleanup_scratch()
     bad = [(i, s, d) for i, s, d in viols if s.get("kind") != "__stat__"]
     for s in summ:
